@@ -20,19 +20,26 @@ import Cx.Proofs.FastCex
     `unicode.SimpleFold` (the model's parameter `hasFold` is `true` at least on the ASCII letters, the only runes the
     reference matcher folds), `RefDepthOK re` is the depth (32) up to which the reference matcher's fuel estimate sees the
     pattern.  Both are shown necessary by `decide` witnesses (`branchDispatch_foldSound_needed`, `branchDispatch_depth_needed`).
-  * ExtractFirstBytes (the O(1) first-byte rejection filter of start-anchored patterns): after the fix of
-    nfa/firstbytes.go (whole `unicode.SimpleFold` orbit of a `FoldCase` literal, UTF-8 lead byte of a non-ASCII literal,
-    every byte `≥ 0x80` for a class reaching above U+007F) the former restrictions of the fragment to case-sensitive,
-    ASCII patterns are gone (`firstBytes_foldCase_fixed`, `firstBytes_latin1_fixed`).  Unconditionally
-    (`C19_firstBytes_complete`): a non-nil result has `IsComplete() = true` — the flag is vacuous, it is only cleared on
-    paths that return nil — and `Count()` is the number of members.  The soundness theorem is still `_partial`: the Go
-    function answers `true` without adding a byte when the node in first position is a zero-width assertion, so the
-    fragment `fbFrag` has to exclude `\A` / `^` / `(?m)$` in first position other than as leading elements of a concatenation
-    (`^(?:a|^)`, `^(?:ab|^)+x`, `^(?m:a|$)`, `^(?:x|(^)a)`: `decide` witnesses in `Cx.Proofs.FastCex`, each replayed on
-    the real code by the C19 check → known findings) and a literal starting with U+FFFD (which `regexp` matches against
-    any ill-formed byte).  The hypothesis `OrbitSound foldOrbit` is a fact about `unicode.SimpleFold`, not a restriction
-    (`firstBytes_orbitSound_needed`); the reference matcher folds ASCII letters only, so the non-ASCII fold partners
-    (`k`/U+212A, `s`/U+017F, …) are covered by `C19_firstBytes_orbit` rather than by a `Ref` match.
+  * ExtractFirstBytes (the O(1) first-byte rejection filter of start-anchored patterns): after the fixes of
+    nfa/firstbytes.go — (1) whole `unicode.SimpleFold` orbit of a `FoldCase` literal, UTF-8 lead byte of a non-ASCII
+    literal, every byte `≥ 0x80` for a class reaching above U+007F (`firstBytes_foldCase_fixed`,
+    `firstBytes_latin1_fixed`); (2) a bare assertion (`^`, `$`, `\A`, `\z`) makes the set unusable instead of answering
+    `true` without a byte, and a concatenation skips its leading assertion-only elements, grouped ones included
+    (`firstBytes_emptyBranch_fixed`, `firstBytes_beginAnchor_fixed`, `firstBytes_endLine_fixed`,
+    `firstBytes_captureAnchor_fixed`) — the filter is sound on EVERY pattern for which `ExtractFirstBytes` returns a set:
+    `C19_firstBytes` (no `_partial`; the former structural exclusions of `fbFrag` — assertions reached in first
+    position — are gone).  Unconditionally (`C19_firstBytes_complete`): a non-nil result has `IsComplete() = true` —
+    the flag is vacuous, it is only cleared on paths that return nil — and `Count()` is the number of members.
+    Hypotheses of `C19_firstBytes`, none of which is forced by a defect of the Go function:
+    `OrbitSound foldOrbit` is a fact about `unicode.SimpleFold` (`firstBytes_orbitSound_needed`; the reference matcher
+    folds ASCII letters only, so the non-ASCII fold partners `k`/U+212A, `s`/U+017F, … are covered by
+    `C19_firstBytes_orbit` rather than by a `Ref` match); haystack bytes are `< 256`; the haystack is non-empty (every
+    caller tests `len(haystack) > 0`); and `fbFrag 21 re`, which now only says, of the nodes in first position, that
+    no literal starts with U+FFFD — the reference matcher, like `regexp`, matches that literal against any ill-formed
+    byte, coregex's engines never do (`firstBytes_runeError_counterexample`) — and that no `{n,…}` has `n < 0`, an
+    invariant of `syntax.Parse` output (`firstBytes_negativeMin_needed`).  `C19_firstBytes_wellformed` trades the
+    U+FFFD condition for one on the haystack: with the parser invariant alone (`fbMinOK`), the same two conclusions
+    hold on every non-empty haystack that begins with a well-formed rune (`WellFormedAt h 0`).
   The witnesses of the fixed defects are kept in `Cx.Proofs.FastCex` as `…_fixed` theorems (pattern now rejected, or
   matcher now agrees with the reference).
   `Ref.refFind` is the general leftmost-first reference matcher over the AST (`Cx.Spec.ReRef`), validated against regexp.
@@ -119,15 +126,17 @@ theorem C19_firstBytes_complete (foldOrbit : Nat → List Nat) (re : Re) (fb : F
     fb.complete = true ∧ fb.count = (List.range 256).countP fb.contains ∧ (∀ b, fb.contains b = true → b < 256) :=
   firstBytes_complete foldOrbit re fb hx
 
-/-- first-byte rejection filter, soundness: on the fragment `fbFrag` (no zero-width assertion other than `\z` in first
-    position, no literal starting with U+FFFD) every match of the pattern at offset 0 of a NON-EMPTY haystack — of any
-    length, the empty match included — starts with a byte of the set; hence (second part) for a pattern `\A…` a
-    non-empty haystack whose first byte is not in the set has no match at all, which is the shortcut meta takes.
+/-- first-byte rejection filter, soundness, for EVERY pattern for which `ExtractFirstBytes` returns a set: every match of
+    the pattern at offset 0 of a NON-EMPTY haystack — of any length, the empty match included — starts with a byte of
+    the set; hence (second part) for a pattern `\A…` a non-empty haystack whose first byte is not in the set has no match
+    at all, which is the shortcut meta takes.
     `hfo`: `foldOrbit` stands for the `unicode.SimpleFold` loop and must list at least the ASCII case variants (it does:
-    `Cx.DriverFast.simpleFoldOrbit_sound`).  `_partial`: `ExtractFirstBytes` still accepts patterns outside `fbFrag`, and
-    is unsound on them (`firstBytes_beginAnchor_counterexample`, `firstBytes_emptyBranch_counterexample`,
-    `firstBytes_endLine_counterexample`, `firstBytes_captureAnchor_counterexample` in Cx.Proofs.FastCex). -/
-theorem C19_firstBytes_partial (foldOrbit : Nat → List Nat) (hfo : OrbitSound foldOrbit) (re : Re) (fb : FirstByteSet)
+    `Cx.DriverFast.simpleFoldOrbit_sound`).  `frag`: among the nodes in first position no literal starts with U+FFFD (a
+    discrepancy of the reference semantics, see the header) and no `{n,…}` has a negative `n` (parser invariant); it says
+    nothing about assertions, groups, alternatives or repetitions — the former exclusions are theorems now
+    (`firstBytes_beginAnchor_fixed`, `firstBytes_emptyBranch_fixed`, `firstBytes_endLine_fixed`,
+    `firstBytes_captureAnchor_fixed` in Cx.Proofs.FastCex). -/
+theorem C19_firstBytes (foldOrbit : Nat → List Nat) (hfo : OrbitSound foldOrbit) (re : Re) (fb : FirstByteSet)
     (hx : extractFirstBytes foldOrbit re = some fb) (frag : fbFrag 21 re = true) (h : Bytes) (hb : ∀ i, h.at i < 256)
     (hne : 0 < h.size) :
     (∀ e, Ref.matchAt re h 0 = some e → fb.contains (h.at 0) = true) ∧
@@ -135,6 +144,19 @@ theorem C19_firstBytes_partial (foldOrbit : Nat → List Nat) (hfo : OrbitSound 
       Ref.refFind re h 0 = none) :=
   ⟨fun e hm => firstBytes_filter_sound foldOrbit hfo re fb hx frag h hb hne e hm,
    fun a rest hop hsub ha hrej => firstBytes_reject_sound foldOrbit hfo re a rest hop hsub ha fb hx frag h hb hne hrej⟩
+
+/-- first-byte rejection filter, soundness with NO condition on the literals of the pattern: `minOK` is the parser
+    invariant `Min ≥ 0` alone; instead the haystack begins with a well-formed rune (`hwf`: its first byte is not an
+    ill-formed byte, which `utf8.DecodeRune` — hence the reference matcher, and `regexp` — reads as U+FFFD). -/
+theorem C19_firstBytes_wellformed (foldOrbit : Nat → List Nat) (hfo : OrbitSound foldOrbit) (re : Re) (fb : FirstByteSet)
+    (hx : extractFirstBytes foldOrbit re = some fb) (minOK : fbMinOK 21 re = true) (h : Bytes) (hb : ∀ i, h.at i < 256)
+    (hne : 0 < h.size) (hwf : WellFormedAt h 0) :
+    (∀ e, Ref.matchAt re h 0 = some e → fb.contains (h.at 0) = true) ∧
+    (∀ a rest, re.op = .concat → re.sub = a :: rest → a.op = .beginText → fb.contains (h.at 0) = false →
+      Ref.refFind re h 0 = none) :=
+  ⟨fun e hm => firstBytes_filter_sound_wellformed foldOrbit hfo re fb hx minOK h hb hne hwf e hm,
+   fun a rest hop hsub ha hrej =>
+     firstBytes_reject_sound_wellformed foldOrbit hfo re a rest hop hsub ha fb hx minOK h hb hne hwf hrej⟩
 
 /-- a `FoldCase` literal contributes the UTF-8 lead byte of EVERY member of the orbit the `SimpleFold` loop produces
     (any pattern, any `foldOrbit`): this is what admits `K` (E2 84 AA) for `(?i)k` and `ſ` (C5 BF) for `(?i)s`, which
